@@ -295,6 +295,8 @@ def gangOK (s : Core) : Option String :=
             else if r.tg != i.tg then some s!"replacement-other-taskgroup {i.key}"
             else if !(fitInStd (some i.res) (some r.res)) then some s!"replacement-larger-than-placeholder {i.key}"
             else none
+      -- a confirmed swap leaves its real allocation on an application that runs (not on one that is about to complete)
+      else if a.live && a.state == "Completing" && i.bound && !i.ph && i.tg != "" then some s!"swapped-real-on-completing-application {i.key}"
       -- the real half of a swap in flight waits for the confirmation of a placeholder that is still bound
       else if i.inflightReal then
         match i.release.bind (fun pk => a.items.find? (·.key == pk)) with
@@ -316,6 +318,10 @@ def lifecycleOK (s : Core) : Option String :=
       some s!"completed-with-swap-in-flight {a.id}"
     else if a.state == "Completing" && a.items.any (fun i => i.inReq && !i.allocated) then
       some s!"completing-with-pending-ask {a.id}"
+    -- a real allocation (new, or the real half of a confirmed swap) moves a Completing application back to Running
+    -- (YkProps/C10 completing_holds_no_real_allocation)
+    else if a.live && a.state == "Completing" && a.items.any (fun i => i.bound && !i.ph) then
+      some s!"completing-with-real-allocation {a.id}"
     else none)
 
 /-- C10: an application with neither asks nor allocations does not stay Accepted / Running: it becomes Completing -/
